@@ -339,6 +339,11 @@ def apply_delta(base, delta, sub=False):
 # one case
 # ---------------------------------------------------------------------------
 
+# every shape safe_to_import may have; the names are irrelevant to the payload: passing them must never
+# stop Delta's own dump from loading (the built-in allow-list stays in force)
+SAFE_SHAPES = [None, "verif_c14_mod.X", ["verif_c14_mod.X", "a.b"], ("a.b",), {"a.b", "c.d"}, frozenset({"a.b"}), set(), ""]
+
+
 def one_case(ctx, rng, idx, out):
     import logging
     logging.disable(logging.CRITICAL)
@@ -383,7 +388,15 @@ def one_case(ctx, rng, idx, out):
     if not typed_payload_eq(loaded, payload):
         ctx.fail(dict(case, path="pickle", stage="payload", loaded=repr(loaded), original=repr(payload)),
                  "pickle_load(delta.dumps()) differs from delta.diff")
-    d2 = Delta(b1, bidirectional=bid, always_include_values=aiv)
+    safe = SAFE_SHAPES[idx % len(SAFE_SHAPES)]
+    ctx.count("safe_to_import:" + type(safe).__name__)
+    case["safe_to_import"] = repr(safe)
+    try:
+        d2 = Delta(b1, bidirectional=bid, always_include_values=aiv, safe_to_import=safe)
+    except Exception as e:  # noqa
+        ctx.fail(dict(case, path="pickle", stage="load", error=type(e).__name__),
+                 "Delta's own dump does not load when safe_to_import=%r is passed: %s" % (safe, type(e).__name__))
+        return
     if not typed_payload_eq(d2.diff, payload):
         ctx.fail(dict(case, path="pickle", stage="Delta(bytes)", loaded=repr(d2.diff), original=repr(payload)),
                  "Delta(delta.dumps()).diff differs from delta.diff")
@@ -395,7 +408,7 @@ def one_case(ctx, rng, idx, out):
     # file object and path; every application below uses a FRESH delta object (a Delta whose
     # application raised keeps internal state and behaves differently the next time: not C14's subject)
     mk = {"orig": lambda: Delta(dd, bidirectional=bid, always_include_values=aiv),
-          "bytes": lambda: Delta(b1, bidirectional=bid, always_include_values=aiv)}
+          "bytes": lambda: Delta(b1, bidirectional=bid, always_include_values=aiv, safe_to_import=safe)}
     if idx % 3 == 0:
         fn = os.path.join(ctx.scratch, "delta_%d.bin" % (idx % 7))
         with open(fn, "wb") as f:
@@ -403,11 +416,17 @@ def one_case(ctx, rng, idx, out):
 
         def from_file():
             with open(fn, "rb") as f:
-                return Delta(delta_file=f, bidirectional=bid, always_include_values=aiv)
+                return Delta(delta_file=f, bidirectional=bid, always_include_values=aiv, safe_to_import=safe)
         mk["file"] = from_file
-        mk["path"] = lambda: Delta(delta_path=fn, bidirectional=bid, always_include_values=aiv)
+        mk["path"] = lambda: Delta(delta_path=fn, bidirectional=bid, always_include_values=aiv, safe_to_import=safe)
         for nm in ("file", "path"):
-            if not typed_payload_eq(mk[nm]().diff, payload):
+            try:
+                same = typed_payload_eq(mk[nm]().diff, payload)
+            except Exception as e:  # noqa
+                ctx.fail(dict(case, path="pickle", stage="load", source=nm, error=type(e).__name__),
+                         "Delta's own dump does not load from %s when safe_to_import=%r is passed: %s" % (nm, safe, type(e).__name__))
+                return
+            if not same:
                 ctx.fail(dict(case, path="pickle", stage=nm), "Delta loaded from %s carries a different payload" % nm)
         ctx.count("source:file+path")
     # behaviour on three bases
@@ -599,6 +618,165 @@ def _nonetype_only(a, b):
 
 
 # ---------------------------------------------------------------------------
+# values outside the model (numpy arrays, objects with an unusual __eq__): direct oracle only
+# ---------------------------------------------------------------------------
+
+EXO_MOD = "verif_c14_types"
+
+
+class EqRaises:
+    """== raises"""
+    def __init__(self, v):
+        self.v = v
+
+    def __eq__(self, other):
+        raise RuntimeError("EqRaises.__eq__ must not be called by a serializer")
+
+    __hash__ = None
+
+
+class EqList:
+    """== returns a non-bool whose truth value is an error, like an ndarray"""
+    def __init__(self, v):
+        self.v = v
+
+    def __eq__(self, other):
+        return _Ambiguous()
+
+    __hash__ = None
+
+
+class _Ambiguous:
+    def __bool__(self):
+        raise ValueError("the truth value of this comparison is ambiguous")
+
+
+def install_exotic():
+    import sys
+    import types
+    m = types.ModuleType(EXO_MOD)
+    for c in (EqRaises, EqList):
+        c.__module__ = EXO_MOD
+        c.__qualname__ = c.__name__
+        setattr(m, c.__name__, c)
+    sys.modules[EXO_MOD] = m
+
+
+def exotic_cases():
+    import numpy as np
+    A = np.array
+    return [
+        ("ndarray added to a dict", lambda: ({"a": 1}, {"a": 1, "b": A([1, 2, 3])}, {})),
+        ("2-d ndarray appended to a list", lambda: ([1, 2], [1, 2, A([[1, 2], [3, 4]])], {})),
+        ("type change int -> ndarray", lambda: ({"x": 5}, {"x": A([1.5, 2.5])}, {})),
+        ("ndarray removed from a dict", lambda: ({"k": A([1, 2, 3]), "z": 1}, {"z": 1}, {})),
+        ("ndarray element changed (numpy paths)", lambda: ({"a": A([1, 2, 3])}, {"a": A([1, 5, 3])}, {})),
+        ("list of ndarrays grows (numpy paths)", lambda: ({"a": [A([1, 2])]}, {"a": [A([1, 2]), A([3, 4, 5])]}, {})),
+        ("ndarray of strings added", lambda: ([], [A(["a", "bc"])], {})),
+        ("ndarray replaces None", lambda: ({"n": None}, {"n": A([0, 0])}, {})),
+        ("object whose == raises, added", lambda: ({"a": 1}, {"a": 1, "w": EqRaises(3)}, {})),
+        ("object whose == raises, in a new list item", lambda: ([1], [1, [EqRaises("x"), 2]], {})),
+        ("object whose == is not a bool, added", lambda: ({"a": 1}, {"a": 1, "w": EqList([1, 2])}, {})),
+        ("object whose == is not a bool, type change", lambda: ({"q": 1}, {"q": EqList(1)}, {})),
+    ]
+
+
+def exo_eq(a, b):
+    """structural equality that never calls an unusual __eq__"""
+    import numpy as np
+    if type(a) is not type(b):
+        return False
+    if isinstance(a, np.ndarray):
+        return a.dtype == b.dtype and a.shape == b.shape and bool(np.array_equal(a, b))
+    if isinstance(a, (EqRaises, EqList)):
+        return exo_eq(a.v, b.v)
+    if isinstance(a, dict):
+        return list(a.keys()) == list(b.keys()) and all(exo_eq(a[k], b[k]) for k in a)
+    if isinstance(a, (list, tuple)):
+        return len(a) == len(b) and all(exo_eq(x, y) for x, y in zip(a, b))
+    if isinstance(a, (set, frozenset)):
+        return a == b
+    if isinstance(a, np.generic):
+        return bool(a == b)
+    return a == b
+
+
+def exo_apply(base, delta):
+    import copy
+    try:
+        return ("ok", delta + copy.deepcopy(base))
+    except Exception as e:  # noqa
+        return ("raised", type(e).__name__)
+
+
+def exotic_one(ctx, k, bid):
+    import logging
+    import re
+    logging.disable(logging.CRITICAL)
+    from deepdiff import DeepDiff, Delta
+    from deepdiff.serialization import ForbiddenModule
+    name, build = exotic_cases()[k]
+    t1, t2, kw = build()
+    case = {"exotic": k, "what": name, "bidirectional": bid}
+    ctx.seen(("exotic", k, bid), nontrivial=True)
+    ctx.count("exotic:" + ("numpy" if "ndarray" in name else "unusual-eq"))
+    try:
+        d = Delta(DeepDiff(t1, t2, **kw), bidirectional=bid)
+    except Exception as e:  # noqa
+        ctx.count("exotic:unbuildable:" + type(e).__name__)
+        return
+    try:
+        b = d.dumps()
+    except Exception as e:  # noqa
+        ctx.fail(dict(case, stage="dumps", error=type(e).__name__), "Delta.dumps() raised %s for a delta holding %s" % (type(e).__name__, name))
+        return
+    buf = io.BytesIO()
+    try:
+        d.dump(buf)
+    except Exception as e:  # noqa
+        ctx.fail(dict(case, stage="dump(file)", error=type(e).__name__), "Delta.dump(file) raised %s for a delta holding %s" % (type(e).__name__, name))
+        return
+    if buf.getvalue() != b:
+        ctx.fail(dict(case, stage="dump(file)"), "dump(file) and dumps() wrote different bytes")
+    # the classes these values need are not on the built-in allow-list: name them, one refusal at a time
+    safe = set()
+    d2 = None
+    for _ in range(10):
+        try:
+            d2 = Delta(b, bidirectional=bid, safe_to_import=safe or None)
+            break
+        except ForbiddenModule as e:
+            m = re.search(r"Module '([^']+)'", str(e))
+            if not m or m.group(1) in safe:
+                break
+            safe.add(m.group(1))
+        except Exception as e:  # noqa
+            ctx.fail(dict(case, stage="load", error=type(e).__name__, safe_to_import=sorted(safe)),
+                     "the dump of a delta holding %s does not load: %s" % (name, type(e).__name__))
+            return
+    if d2 is None:
+        ctx.fail(dict(case, stage="load", error="ForbiddenModule", safe_to_import=sorted(safe)),
+                 "the dump of a delta holding %s does not load even with its classes in safe_to_import" % name)
+        return
+    if not exo_eq(d2.diff, d.diff):
+        ctx.fail(dict(case, stage="payload", loaded=repr(d2.diff), original=repr(d.diff)), "the reloaded payload differs (%s)" % name)
+    for base in (t1, t2):
+        w_, g_ = exo_apply(base, Delta(DeepDiff(t1, t2, **kw), bidirectional=bid)), exo_apply(base, Delta(b, bidirectional=bid, safe_to_import=safe or None))
+        if w_[0] != g_[0] or (w_[0] == "ok" and not exo_eq(w_[1], g_[1])) or (w_[0] == "raised" and w_[1] != g_[1]):
+            ctx.fail(dict(case, stage="behaviour", original=repr(w_), reloaded=repr(g_)), "the reloaded delta behaves differently (%s)" % name)
+
+
+def exotic_stream(ctx):
+    install_exotic()
+    n = len(exotic_cases())
+    for k in range(n):
+        for bid in (False, True):
+            exotic_one(ctx, k, bid)
+    ctx.note("exotic_values", "numpy arrays and objects with an unusual __eq__ are outside the Coq payload model; "
+             "%d hand-written deltas x bidirectional go through dumps()/dump(file)/reload with a direct oracle only" % n)
+
+
+# ---------------------------------------------------------------------------
 # correspondence (b): the canonical encoder's output is a real pickle
 # ---------------------------------------------------------------------------
 
@@ -765,15 +943,18 @@ def fixed_witnesses(ctx):
     from deepdiff import DeepDiff, Delta
     from deepdiff.serialization import json_dumps, json_loads
     rep = {}
-    # K12: C14_json_opcode_refuted
+    # K12 (fixed in c7b983b): C14_json_opcode_roundtrip - the delta with opcodes survives the JSON round trip
     t1, t2 = [1, 2, 3, 4], [9, 8, 1, 2, 3, 4]
     d = Delta(DeepDiff(t1, t2), serializer=json_dumps)
     text = d.dumps()
+    back = "raises"
     try:
-        Delta(text, deserializer=json_loads)
-        rep["K12"] = "loads"
-        ctx.break_("correspondence", {"name": "refuted-witness", "detail": "C14_json_opcode_refuted no longer reproduces "
-                                      "(a JSON-serialised delta with opcodes loads): the model is out of date"})
+        dj = Delta(text, deserializer=json_loads)
+        rep["K12"] = "loads, payload equal" if typed_payload_eq(dj.diff, d.diff) else "loads, payload differs"
+        back = pv_canon(dj.diff)
+        if not typed_payload_eq(dj.diff, d.diff) or apply_delta(t1, dj) != apply_delta(t1, Delta(DeepDiff(t1, t2))):
+            ctx.fail({"path": "json", "stage": "payload", "has_opcodes": True, "t1": repr(t1), "t2": repr(t2), "witness": "coq"},
+                     "a JSON-serialised delta with iterable opcodes comes back different")
     except TypeError:
         rep["K12"] = "TypeError"
         ctx.fail({"path": "json", "stage": "load", "error": "TypeError", "has_opcodes": True, "t1": repr(t1), "t2": repr(t2),
@@ -793,7 +974,7 @@ def fixed_witnesses(ctx):
     ctx.note("refuted_witnesses_replayed", rep)
     pay = Delta(DeepDiff(t1, t2)).diff
     return [("SL [sx_ojv (to_json %s); sx_opv (json_roundtrip %s)]" % (pv_coq(pay), pv_coq(pay)),
-             [json_canon(json.loads(text, object_pairs_hook=_Pairs)), "raises"], {"corr": "json", "witness": "K12"})]
+             [json_canon(json.loads(text, object_pairs_hook=_Pairs)), back], {"corr": "json", "witness": "K12"})]
 
 
 def run(ctx):
@@ -801,6 +982,7 @@ def run(ctx):
     out = {"vm": [], "enc": [], "json": [], "acc": [], "enc_max": 600 if ctx.thorough else 160}
     for i in range(n):
         one_case(ctx, ctx.rng, i, out)
+    exotic_stream(ctx)
     out["json"] += fixed_witnesses(ctx)
     hdr = "From DD Require Import Base.PyStr Base.Value Pickle.Vm Pickle.Codec Pickle.PickleShow.\nLocal Open Scope Z_scope."
     ctx.coq_cases("c14_vm", hdr, out["vm"], shard=60, label="real dumps on the model VM")
@@ -815,6 +997,11 @@ def replay(ctx, data):
     import logging
     logging.disable(logging.CRITICAL)
     case = data.get("case", {})
+    if "exotic" in case:
+        install_exotic()
+        print("replay: exotic value case %d (%s), bidirectional=%s" % (case["exotic"], case.get("what"), case.get("bidirectional")))
+        exotic_one(ctx, case["exotic"], case.get("bidirectional", False))
+        return
     if "t1" not in case:
         return run(ctx)
     from deepdiff import DeepDiff, Delta
@@ -822,6 +1009,7 @@ def replay(ctx, data):
     t1, t2 = eval(case["t1"]), eval(case["t2"])   # literals written by this harness
     kw = {k_: (_by_id if v_ == "_by_id" else v_) for k_, v_ in case.get("diff_kwargs", {}).items()}
     bid, aiv = case.get("bidirectional", False), case.get("always_include_values", False)
+    safe = eval(case.get("safe_to_import", "None"))
     dd = DeepDiff(t1, t2, **kw)
     d = Delta(dd, bidirectional=bid, always_include_values=aiv)
     ctx.evaluations += 1
@@ -842,12 +1030,12 @@ def replay(ctx, data):
                 with open(fn, "wb") as f:
                     d.dump(f)
                 if src == "path":
-                    d2 = Delta(delta_path=fn, bidirectional=bid, always_include_values=aiv)
+                    d2 = Delta(delta_path=fn, bidirectional=bid, always_include_values=aiv, safe_to_import=safe)
                 else:
                     with open(fn, "rb") as f:
-                        d2 = Delta(delta_file=f, bidirectional=bid, always_include_values=aiv)
+                        d2 = Delta(delta_file=f, bidirectional=bid, always_include_values=aiv, safe_to_import=safe)
             else:
-                d2 = Delta(d.dumps(), bidirectional=bid, always_include_values=aiv)
+                d2 = Delta(d.dumps(), bidirectional=bid, always_include_values=aiv, safe_to_import=safe)
         except Exception as e:  # noqa
             print("replay: pickle path raised %s: %s" % (type(e).__name__, e))
             ctx.fail(dict(case), "Delta's own dump does not load: %s" % type(e).__name__)
